@@ -77,6 +77,42 @@ func zzRunOn(gp *GenginePool, which int) (map[string]int64, error, map[string]in
 	return out, err, res
 }
 
+// zzRunByName forces one execution that resolves rules through the name map (selected / concurrent / DAG)
+// onto instance which and returns the versions that ran.
+func zzRunByName(gp *GenginePool, which int, model int, names []string) (map[string]int64, error) {
+	zzVerMu.Lock()
+	for k := range zzLastVer {
+		delete(zzLastVer, k)
+	}
+	zzRunOrder = nil
+	zzVerMu.Unlock()
+	var held *gengineWrapper
+	if which == 1 {
+		held, _ = gp.getGengine()
+	}
+	data := map[string]interface{}{"req": int64(1)}
+	var err error
+	switch model {
+	case 0:
+		err, _ = gp.ExecuteSelectedRules(data, names)
+	case 1:
+		err, _ = gp.ExecuteConcurrent(data)
+	default:
+		err, _ = gp.ExecuteDAGModel([][]string{names}, data)
+	}
+	if held != nil {
+		gp.putGengineLocked(held)
+	}
+	vnd.Quiesce()
+	out := map[string]int64{}
+	zzVerMu.Lock()
+	for k, v := range zzLastVer {
+		out[k] = v
+	}
+	zzVerMu.Unlock()
+	return out, err
+}
+
 // zzCheckPool: queries and executions on every instance agree with spec / model.
 func zzCheckPool(gp *GenginePool, spec map[string]zzSpec, model int) {
 	vnd.Assert(gp.GetExecModel() == model, "the execution model query answers the denoted model")
@@ -107,6 +143,26 @@ func zzCheckPool(gp *GenginePool, spec map[string]zzSpec, model int) {
 			vnd.Assert(err == nil, "the execution succeeds")
 			for k := 0; k+1 < len(zzRunOrder); k++ {
 				vnd.Assert(spec[zzRunOrder[k]].sal >= spec[zzRunOrder[k+1]].sal, "sorted by the current saliences")
+			}
+		}
+	}
+	// the models that resolve rules by name see the same set (one model per instance to bound the work)
+	if len(spec) > 0 {
+		var all []string
+		for n := range spec {
+			all = append(all, n)
+		}
+		for i := 1; i < len(all); i++ { // a fixed order, whatever the map iteration order
+			for j := i; j > 0 && all[j] < all[j-1]; j-- {
+				all[j], all[j-1] = all[j-1], all[j]
+			}
+		}
+		for which := 0; which < 2; which++ {
+			got, err := zzRunByName(gp, which, which, all)
+			vnd.Assert(err == nil, "the by-name execution succeeds")
+			vnd.Assert(len(got) == len(spec), "a by-name execution on every instance runs exactly the denoted set")
+			for n, want := range spec {
+				vnd.Assert(got[n] == want.ver, "a by-name execution on every instance runs the denoted version of each rule")
 			}
 		}
 	}
